@@ -1,4 +1,4 @@
 SPECIFICATION Spec
-CONSTANT WithDup = FALSE
+CONSTANT DupModel = "current"
 INVARIANT ClausesHold
 CHECK_DEADLOCK FALSE
